@@ -319,7 +319,16 @@ fn budget(p: &Params, seed: u64) -> HistResult {
     h.w.armed.set(crate::sim::prop_tag(p.prop));
     let w = h.w.clone();
     let kind = p.kind.unwrap_or_else(|| *h.rng.pick(&[Kind::Fub, Kind::Fub, Kind::Fu, Kind::Fob, Kind::Fo, Kind::MergeB]));
-    let n = if p.small { h.rng.range(62, 70) } else { *h.rng.pick(&[62usize, 63, 100, 122, 123, 124, 200, 300]) };
+    // `few`: a handful of children, every busy one poking a stale waker before waking itself, so
+    // that dequeued vacant slots and polled children alternate in the ready queue
+    let few = !kind.is_merge() && h.rng.chance(1, 4);
+    let n = if few {
+        h.rng.range(2, 6)
+    } else if p.small {
+        h.rng.range(62, 70)
+    } else {
+        *h.rng.pick(&[62usize, 63, 100, 122, 123, 124, 200, 300])
+    };
     w.streak_cap.set(if p.small { 300 } else { 5000 });
     match kind {
         Kind::MergeB => {
@@ -341,10 +350,43 @@ fn budget(p: &Params, seed: u64) -> HistResult {
         }
     }
     w.streak_limit.set(4096 * (w.groups_bound.get() + 1));
+    // variant: a few children finish first (their retained wakers become stale) and the busy
+    // ones poke such a stale waker on every poll, before or after waking themselves
+    let mut stale: Vec<u32> = Vec::new();
+    if !kind.is_merge() && (few || h.rng.chance(1, 2)) {
+        h.poll_until_all_polled(n / 30 + 8);
+        let all = h.held.clone();
+        for id in all.iter().take(3) {
+            w.kids.borrow_mut()[*id as usize].hold = 3;
+        }
+        let n_stale = h.rng.range(1, 3).min(n - 1);
+        for id in all.iter().take(n_stale) {
+            h.op_complete(*id, true);
+            stale.push(*id);
+        }
+        for _ in 0..8 {
+            let wk = h.last_waker;
+            if h.poll(wk) != Last::Item || w.has_violation() || h.subj.is_none() {
+                break;
+            }
+        }
+    }
     // all children self-wake forever: every call must still return, and must wake its task
     let ids = h.held.clone();
-    for id in &ids {
-        w.kids.borrow_mut()[*id as usize].self_wake = u32::MAX;
+    for (i, id) in ids.iter().enumerate() {
+        let mut ks = w.kids.borrow_mut();
+        let k = &mut ks[*id as usize];
+        k.self_wake = u32::MAX;
+        if !stale.is_empty() && (few || i % 2 == 0) {
+            k.wake_other = Some(stale[i % stale.len()]);
+            k.other_first = if few { i % 4 != 3 } else { i % 4 == 0 };
+        }
+    }
+    if !stale.is_empty() {
+        // they have all been polled and sit idle: one wake-up each starts the self-waking
+        for id in &ids {
+            h.op_wake(*id, 0, 0);
+        }
     }
     let rounds = h.rng.range(3, 10);
     for _ in 0..rounds {
@@ -356,7 +398,9 @@ fn budget(p: &Params, seed: u64) -> HistResult {
     }
     // now everything becomes passive again: the budget yields must not have lost anybody
     for id in &ids {
-        w.kids.borrow_mut()[*id as usize].self_wake = 0;
+        let mut ks = w.kids.borrow_mut();
+        ks[*id as usize].self_wake = 0;
+        ks[*id as usize].wake_other = None;
     }
     if !w.has_violation() {
         h.drain();
